@@ -54,6 +54,7 @@ class LThread:
     def __init__(self, rig, idx):
         self.rig = rig
         self.idx = idx
+        self.local = idx
         self.go = threading.Event()
         self.payload = None
         self.state = "idle"
@@ -150,7 +151,7 @@ class FakeTransport:
         if lt is not None:
             lt.park("hold", tok)
         self.rig.wire.append(tok)
-        self.rig.wire_by.append(lt.idx if lt is not None else -1)
+        self.rig.wire_by.append(lt.local if lt is not None else -1)
 
     def _unlink_channel(self, chanid):
         self.rig.linked = False
@@ -176,11 +177,6 @@ class Pool:
             self.threads.append(lt)
             self._await(lt)
             self.by_ident[lt.thread.ident] = lt
-        for lt in self.threads:
-            lt.rig = rig
-            lt.clock = 0.0
-            lt.result = "-"
-            lt.op = None
 
     def _await(self, lt):
         try:
@@ -196,7 +192,7 @@ POOL = Pool()
 
 
 class Rig:
-    def __init__(self, in_win, peer_win, peer_max, nthr, combine=False, chanid=1):
+    def __init__(self, in_win, peer_win, peer_max, nthr, combine=False, chanid=1, base=0):
         import paramiko.channel as chmod
         from paramiko.message import Message
         self.chmod = chmod
@@ -205,8 +201,10 @@ class Rig:
         self.linked = True
         self.nthr = nthr
         self.events = POOL.events
-        POOL.ensure(self, nthr)
-        self.threads = POOL.threads[:nthr]
+        POOL.ensure(self, base + nthr)
+        self.threads = POOL.threads[base:base + nthr]
+        for i, lt in enumerate(self.threads):
+            lt.rig, lt.local, lt.clock, lt.result, lt.op = self, i, 0.0, "-", None
         self.transport = FakeTransport(self)
         chan = self.chan = chmod.Channel(chanid)
         chan._set_transport(self.transport)
